@@ -1,45 +1,40 @@
-// Package atomic mirrors the parts of sync/atomic used by /repo; every operation is one
-// scheduler step. Sequential consistency is by construction (one goroutine runs at a time).
+// Package atomic mirrors sync/atomic (types and functions) for instrumented copies of /repo
+// sources; every operation is one scheduler step. Sequential consistency is by construction (one
+// goroutine runs at a time). Counter-like objects report "ctr-read"/"ctr-update", pointer-like
+// ones "ptr-read"/"ptr-update".
 package atomic
 
-import "verif/harness/internal/sched"
+import (
+	"unsafe"
 
-type Int64 struct{ v int64 }
+	"verif/harness/internal/sched"
+)
 
-func (x *Int64) Load() int64 {
-	op := &sched.Op{Kind: "ctr-read", Obj: x}
+func yield(kind string, obj any, a, b any) *sched.Op {
+	op := &sched.Op{Kind: kind, Obj: obj, A: a, B: b}
 	sched.Yield(op)
-	op.Res = x.v
-	return x.v
+	return op
 }
 
-func (x *Int64) Store(v int64) {
-	op := &sched.Op{Kind: "ctr-update", Obj: x, A: v}
-	sched.Yield(op)
-	x.v = v
-	op.Res = v
-}
+type Int32 struct{ v int32 }
 
-func (x *Int64) Add(d int64) int64 {
-	op := &sched.Op{Kind: "ctr-update", Obj: x, A: d}
-	sched.Yield(op)
+func (x *Int32) Load() int32   { op := yield("ctr-read", x, nil, nil); op.Res = x.v; return x.v }
+func (x *Int32) Store(v int32) { op := yield("ctr-update", x, v, nil); x.v = v; op.Res = v }
+func (x *Int32) Add(d int32) int32 {
+	op := yield("ctr-update", x, d, nil)
 	x.v += d
 	op.Res = x.v
 	return x.v
 }
-
-func (x *Int64) Swap(v int64) int64 {
-	op := &sched.Op{Kind: "ctr-update", Obj: x, A: v}
-	sched.Yield(op)
+func (x *Int32) Swap(v int32) int32 {
+	op := yield("ctr-update", x, v, nil)
 	old := x.v
 	x.v = v
 	op.Res = v
 	return old
 }
-
-func (x *Int64) CompareAndSwap(old, new int64) bool {
-	op := &sched.Op{Kind: "ctr-update", Obj: x, A: old, B: new}
-	sched.Yield(op)
+func (x *Int32) CompareAndSwap(old, new int32) bool {
+	op := yield("ctr-update", x, old, new)
 	if x.v == old {
 		x.v = new
 		op.OK = true
@@ -47,75 +42,343 @@ func (x *Int64) CompareAndSwap(old, new int64) bool {
 	op.Res = x.v
 	return op.OK
 }
-
-type Int32 struct{ v int32 }
-
-func (x *Int32) Load() int32 {
-	op := &sched.Op{Kind: "ctr-read", Obj: x}
-	sched.Yield(op)
+func (x *Int32) And(m int32) int32 {
+	op := yield("ctr-update", x, m, nil)
+	old := x.v
+	x.v &= m
 	op.Res = x.v
-	return x.v
+	return old
 }
-func (x *Int32) Store(v int32) {
-	op := &sched.Op{Kind: "ctr-update", Obj: x, A: v}
-	sched.Yield(op)
-	x.v = v
+func (x *Int32) Or(m int32) int32 {
+	op := yield("ctr-update", x, m, nil)
+	old := x.v
+	x.v |= m
+	op.Res = x.v
+	return old
+}
+
+func LoadInt32(p *int32) int32     { op := yield("ctr-read", p, nil, nil); op.Res = *p; return *p }
+func StoreInt32(p *int32, v int32) { op := yield("ctr-update", p, v, nil); *p = v; op.Res = v }
+func AddInt32(p *int32, d int32) int32 {
+	op := yield("ctr-update", p, d, nil)
+	*p += d
+	op.Res = *p
+	return *p
+}
+func SwapInt32(p *int32, v int32) int32 {
+	op := yield("ctr-update", p, v, nil)
+	old := *p
+	*p = v
 	op.Res = v
+	return old
 }
-func (x *Int32) Add(d int32) int32 {
-	op := &sched.Op{Kind: "ctr-update", Obj: x, A: d}
-	sched.Yield(op)
+func CompareAndSwapInt32(p *int32, old, new int32) bool {
+	op := yield("ctr-update", p, old, new)
+	if *p == old {
+		*p = new
+		op.OK = true
+	}
+	op.Res = *p
+	return op.OK
+}
+
+type Int64 struct{ v int64 }
+
+func (x *Int64) Load() int64   { op := yield("ctr-read", x, nil, nil); op.Res = x.v; return x.v }
+func (x *Int64) Store(v int64) { op := yield("ctr-update", x, v, nil); x.v = v; op.Res = v }
+func (x *Int64) Add(d int64) int64 {
+	op := yield("ctr-update", x, d, nil)
 	x.v += d
 	op.Res = x.v
 	return x.v
 }
-func (x *Int32) CompareAndSwap(old, new int32) bool {
-	op := &sched.Op{Kind: "ctr-update", Obj: x, A: old, B: new}
-	sched.Yield(op)
+func (x *Int64) Swap(v int64) int64 {
+	op := yield("ctr-update", x, v, nil)
+	old := x.v
+	x.v = v
+	op.Res = v
+	return old
+}
+func (x *Int64) CompareAndSwap(old, new int64) bool {
+	op := yield("ctr-update", x, old, new)
 	if x.v == old {
 		x.v = new
 		op.OK = true
 	}
 	op.Res = x.v
+	return op.OK
+}
+func (x *Int64) And(m int64) int64 {
+	op := yield("ctr-update", x, m, nil)
+	old := x.v
+	x.v &= m
+	op.Res = x.v
+	return old
+}
+func (x *Int64) Or(m int64) int64 {
+	op := yield("ctr-update", x, m, nil)
+	old := x.v
+	x.v |= m
+	op.Res = x.v
+	return old
+}
+
+func LoadInt64(p *int64) int64     { op := yield("ctr-read", p, nil, nil); op.Res = *p; return *p }
+func StoreInt64(p *int64, v int64) { op := yield("ctr-update", p, v, nil); *p = v; op.Res = v }
+func AddInt64(p *int64, d int64) int64 {
+	op := yield("ctr-update", p, d, nil)
+	*p += d
+	op.Res = *p
+	return *p
+}
+func SwapInt64(p *int64, v int64) int64 {
+	op := yield("ctr-update", p, v, nil)
+	old := *p
+	*p = v
+	op.Res = v
+	return old
+}
+func CompareAndSwapInt64(p *int64, old, new int64) bool {
+	op := yield("ctr-update", p, old, new)
+	if *p == old {
+		*p = new
+		op.OK = true
+	}
+	op.Res = *p
+	return op.OK
+}
+
+type Uint32 struct{ v uint32 }
+
+func (x *Uint32) Load() uint32   { op := yield("ctr-read", x, nil, nil); op.Res = x.v; return x.v }
+func (x *Uint32) Store(v uint32) { op := yield("ctr-update", x, v, nil); x.v = v; op.Res = v }
+func (x *Uint32) Add(d uint32) uint32 {
+	op := yield("ctr-update", x, d, nil)
+	x.v += d
+	op.Res = x.v
+	return x.v
+}
+func (x *Uint32) Swap(v uint32) uint32 {
+	op := yield("ctr-update", x, v, nil)
+	old := x.v
+	x.v = v
+	op.Res = v
+	return old
+}
+func (x *Uint32) CompareAndSwap(old, new uint32) bool {
+	op := yield("ctr-update", x, old, new)
+	if x.v == old {
+		x.v = new
+		op.OK = true
+	}
+	op.Res = x.v
+	return op.OK
+}
+func (x *Uint32) And(m uint32) uint32 {
+	op := yield("ctr-update", x, m, nil)
+	old := x.v
+	x.v &= m
+	op.Res = x.v
+	return old
+}
+func (x *Uint32) Or(m uint32) uint32 {
+	op := yield("ctr-update", x, m, nil)
+	old := x.v
+	x.v |= m
+	op.Res = x.v
+	return old
+}
+
+func LoadUint32(p *uint32) uint32     { op := yield("ctr-read", p, nil, nil); op.Res = *p; return *p }
+func StoreUint32(p *uint32, v uint32) { op := yield("ctr-update", p, v, nil); *p = v; op.Res = v }
+func AddUint32(p *uint32, d uint32) uint32 {
+	op := yield("ctr-update", p, d, nil)
+	*p += d
+	op.Res = *p
+	return *p
+}
+func SwapUint32(p *uint32, v uint32) uint32 {
+	op := yield("ctr-update", p, v, nil)
+	old := *p
+	*p = v
+	op.Res = v
+	return old
+}
+func CompareAndSwapUint32(p *uint32, old, new uint32) bool {
+	op := yield("ctr-update", p, old, new)
+	if *p == old {
+		*p = new
+		op.OK = true
+	}
+	op.Res = *p
+	return op.OK
+}
+
+type Uint64 struct{ v uint64 }
+
+func (x *Uint64) Load() uint64   { op := yield("ctr-read", x, nil, nil); op.Res = x.v; return x.v }
+func (x *Uint64) Store(v uint64) { op := yield("ctr-update", x, v, nil); x.v = v; op.Res = v }
+func (x *Uint64) Add(d uint64) uint64 {
+	op := yield("ctr-update", x, d, nil)
+	x.v += d
+	op.Res = x.v
+	return x.v
+}
+func (x *Uint64) Swap(v uint64) uint64 {
+	op := yield("ctr-update", x, v, nil)
+	old := x.v
+	x.v = v
+	op.Res = v
+	return old
+}
+func (x *Uint64) CompareAndSwap(old, new uint64) bool {
+	op := yield("ctr-update", x, old, new)
+	if x.v == old {
+		x.v = new
+		op.OK = true
+	}
+	op.Res = x.v
+	return op.OK
+}
+func (x *Uint64) And(m uint64) uint64 {
+	op := yield("ctr-update", x, m, nil)
+	old := x.v
+	x.v &= m
+	op.Res = x.v
+	return old
+}
+func (x *Uint64) Or(m uint64) uint64 {
+	op := yield("ctr-update", x, m, nil)
+	old := x.v
+	x.v |= m
+	op.Res = x.v
+	return old
+}
+
+func LoadUint64(p *uint64) uint64     { op := yield("ctr-read", p, nil, nil); op.Res = *p; return *p }
+func StoreUint64(p *uint64, v uint64) { op := yield("ctr-update", p, v, nil); *p = v; op.Res = v }
+func AddUint64(p *uint64, d uint64) uint64 {
+	op := yield("ctr-update", p, d, nil)
+	*p += d
+	op.Res = *p
+	return *p
+}
+func SwapUint64(p *uint64, v uint64) uint64 {
+	op := yield("ctr-update", p, v, nil)
+	old := *p
+	*p = v
+	op.Res = v
+	return old
+}
+func CompareAndSwapUint64(p *uint64, old, new uint64) bool {
+	op := yield("ctr-update", p, old, new)
+	if *p == old {
+		*p = new
+		op.OK = true
+	}
+	op.Res = *p
+	return op.OK
+}
+
+type Uintptr struct{ v uintptr }
+
+func (x *Uintptr) Load() uintptr   { op := yield("ctr-read", x, nil, nil); op.Res = x.v; return x.v }
+func (x *Uintptr) Store(v uintptr) { op := yield("ctr-update", x, v, nil); x.v = v; op.Res = v }
+func (x *Uintptr) Add(d uintptr) uintptr {
+	op := yield("ctr-update", x, d, nil)
+	x.v += d
+	op.Res = x.v
+	return x.v
+}
+func (x *Uintptr) Swap(v uintptr) uintptr {
+	op := yield("ctr-update", x, v, nil)
+	old := x.v
+	x.v = v
+	op.Res = v
+	return old
+}
+func (x *Uintptr) CompareAndSwap(old, new uintptr) bool {
+	op := yield("ctr-update", x, old, new)
+	if x.v == old {
+		x.v = new
+		op.OK = true
+	}
+	op.Res = x.v
+	return op.OK
+}
+func (x *Uintptr) And(m uintptr) uintptr {
+	op := yield("ctr-update", x, m, nil)
+	old := x.v
+	x.v &= m
+	op.Res = x.v
+	return old
+}
+func (x *Uintptr) Or(m uintptr) uintptr {
+	op := yield("ctr-update", x, m, nil)
+	old := x.v
+	x.v |= m
+	op.Res = x.v
+	return old
+}
+
+func LoadUintptr(p *uintptr) uintptr     { op := yield("ctr-read", p, nil, nil); op.Res = *p; return *p }
+func StoreUintptr(p *uintptr, v uintptr) { op := yield("ctr-update", p, v, nil); *p = v; op.Res = v }
+func AddUintptr(p *uintptr, d uintptr) uintptr {
+	op := yield("ctr-update", p, d, nil)
+	*p += d
+	op.Res = *p
+	return *p
+}
+func SwapUintptr(p *uintptr, v uintptr) uintptr {
+	op := yield("ctr-update", p, v, nil)
+	old := *p
+	*p = v
+	op.Res = v
+	return old
+}
+func CompareAndSwapUintptr(p *uintptr, old, new uintptr) bool {
+	op := yield("ctr-update", p, old, new)
+	if *p == old {
+		*p = new
+		op.OK = true
+	}
+	op.Res = *p
 	return op.OK
 }
 
 type Bool struct{ v bool }
 
-func (x *Bool) Load() bool {
-	op := &sched.Op{Kind: "ctr-read", Obj: x}
-	sched.Yield(op)
-	op.Res = x.v
-	return x.v
-}
-func (x *Bool) Store(v bool) {
-	op := &sched.Op{Kind: "ctr-update", Obj: x, A: v}
-	sched.Yield(op)
+func (x *Bool) Load() bool   { op := yield("ctr-read", x, nil, nil); op.Res = x.v; return x.v }
+func (x *Bool) Store(v bool) { op := yield("ctr-update", x, v, nil); x.v = v; op.Res = v }
+func (x *Bool) Swap(v bool) bool {
+	op := yield("ctr-update", x, v, nil)
+	old := x.v
 	x.v = v
 	op.Res = v
+	return old
+}
+func (x *Bool) CompareAndSwap(old, new bool) bool {
+	op := yield("ctr-update", x, old, new)
+	if x.v == old {
+		x.v = new
+		op.OK = true
+	}
+	op.Res = x.v
+	return op.OK
 }
 
 // Pointer mirrors atomic.Pointer[T].
 type Pointer[T any] struct{ p *T }
 
-func (x *Pointer[T]) Load() *T {
-	op := &sched.Op{Kind: "ptr-read", Obj: x}
-	sched.Yield(op)
-	op.Res = x.p
-	return x.p
-}
-
+func (x *Pointer[T]) Load() *T { op := yield("ptr-read", x, nil, nil); op.Res = x.p; return x.p }
 func (x *Pointer[T]) Store(p *T) {
-	op := &sched.Op{Kind: "ptr-update", Obj: x, B: p}
-	sched.Yield(op)
+	op := yield("ptr-update", x, nil, p)
 	x.p = p
 	op.OK = true
 	op.Res = p
 }
-
 func (x *Pointer[T]) Swap(p *T) *T {
-	op := &sched.Op{Kind: "ptr-update", Obj: x, B: p}
-	sched.Yield(op)
+	op := yield("ptr-update", x, nil, p)
 	old := x.p
 	x.p = p
 	op.A = old
@@ -123,14 +386,59 @@ func (x *Pointer[T]) Swap(p *T) *T {
 	op.Res = p
 	return old
 }
-
 func (x *Pointer[T]) CompareAndSwap(old, new *T) bool {
-	op := &sched.Op{Kind: "ptr-update", Obj: x, A: old, B: new}
-	sched.Yield(op)
+	op := yield("ptr-update", x, old, new)
 	if x.p == old {
 		x.p = new
 		op.OK = true
 	}
 	op.Res = x.p
+	return op.OK
+}
+
+// Value mirrors atomic.Value.
+type Value struct{ v any }
+
+func (x *Value) Load() any   { op := yield("ptr-read", x, nil, nil); op.Res = x.v; return x.v }
+func (x *Value) Store(v any) { op := yield("ptr-update", x, nil, v); x.v = v; op.OK = true; op.Res = v }
+func (x *Value) Swap(v any) any {
+	op := yield("ptr-update", x, nil, v)
+	old := x.v
+	x.v = v
+	op.OK = true
+	return old
+}
+func (x *Value) CompareAndSwap(old, new any) bool {
+	op := yield("ptr-update", x, old, new)
+	if x.v == old {
+		x.v = new
+		op.OK = true
+	}
+	return op.OK
+}
+
+func LoadPointer(p *unsafe.Pointer) unsafe.Pointer {
+	op := yield("ptr-read", p, nil, nil)
+	op.Res = *p
+	return *p
+}
+func StorePointer(p *unsafe.Pointer, v unsafe.Pointer) {
+	op := yield("ptr-update", p, nil, v)
+	*p = v
+	op.OK = true
+}
+func SwapPointer(p *unsafe.Pointer, v unsafe.Pointer) unsafe.Pointer {
+	op := yield("ptr-update", p, nil, v)
+	old := *p
+	*p = v
+	op.OK = true
+	return old
+}
+func CompareAndSwapPointer(p *unsafe.Pointer, old, new unsafe.Pointer) bool {
+	op := yield("ptr-update", p, old, new)
+	if *p == old {
+		*p = new
+		op.OK = true
+	}
 	return op.OK
 }
